@@ -326,6 +326,180 @@ static void oracle_c02_file(const std::string& type, const VerCfg& vc, const Scr
 	c02_file_checks(b.file, type + ":" + game_of(vc), vf::strf("%s (%s)", type.c_str(), vc.name), case_json(type, vc, s), st);
 }
 
+// ---------- C07 ----------
+// Header tables of a written file, checked by the independent parser (nifparse.hpp) plus a
+// block-by-block re-read: bytes consumed by each type's *reader* must equal the size the
+// *writer-side counter* put into the header.
+static void c07_check_saved(const canon::Saved& sv, bool has_unknown, const std::string& keybase, const std::string& what, const J& cj, Stats& st) {
+	st.add("saved_files_checked");
+	const std::string& F = sv.bytes;
+	np::Header h = np::parse(F);
+	if (!h.ok) {
+		st.violation(keybase + ":header-unparsable", what + ": independent parser rejects the written header: " + h.err, cj);
+		return;
+	}
+	if (h.has_types) {
+		if (h.typeidx.size() != h.nblocks) { st.violation(keybase + ":type-index-count", what + ": type index table length != block count", cj); return; }
+		for (size_t i = 0; i < h.typeidx.size(); i++)
+			if (h.typeidx[i] >= h.types.size()) {
+				st.violation(keybase + ":type-index-out-of-range", vf::strf("%s: block %zu has type index %u but the table holds %zu names", what.c_str(), i, h.typeidx[i], h.types.size()), cj);
+				return;
+			}
+	}
+	if (h.has_sizes) {
+		if (h.blocks_end + 8 != F.size() || !np::footer_ok(F, h.blocks_end)) {
+			st.violation(keybase + ":size-table-walk",
+						 vf::strf("%s: header end %zu + sum of block sizes = %zu, +8 footer != file length %zu (or footer bytes wrong)", what.c_str(), h.hdr_end, h.blocks_end, F.size()), cj);
+			return;
+		}
+	}
+	// re-read block by block with the library's readers
+	{
+		NiHeader hdr;
+		NiVersion v((NiFileVersion) h.version, h.user, h.stream);
+		hdr.SetVersion(v);
+		for (auto& sname : h.strings) hdr.AddOrFindStringId(sname, true);
+		std::istringstream is(F, std::ios::binary);
+		is.seekg((std::streamoff) h.hdr_end);
+		NiIStream in(&is, &hdr);
+		auto& reg = NiFactoryRegister::Get();
+		for (uint32_t i = 0; i < h.nblocks; i++) {
+			std::string tn = h.type_of(i);
+			auto f = reg.GetFactoryByName(tn);
+			long long before = (long long) is.tellg();
+			if (!f) {
+				if (!h.has_sizes) break;
+				is.seekg((std::streamoff) (h.block_off[i] + h.sizes[i]));
+				continue;
+			}
+			std::unique_ptr<NiObject> b;
+			try { b = f->Load(in); } catch (std::exception&) { st.add("reread_exception"); return; }
+			if (is.fail()) {
+				st.violation(keybase + ":block-reread-overrun:" + tn, vf::strf("%s: re-reading block %u (%s) runs past the end of the file", what.c_str(), i, tn.c_str()), cj);
+				return;
+			}
+			long long used = (long long) is.tellg() - before;
+			st.add("block_sizes_checked");
+			if (h.has_sizes && used != (long long) h.sizes[i]) {
+				st.violation(keybase + ":block-size-mismatch:" + tn,
+							 vf::strf("%s: header says block %u (%s) has %u bytes, its reader consumes %lld", what.c_str(), i, tn.c_str(), h.sizes[i], used), cj);
+				return;
+			}
+		}
+		if (!h.has_sizes) {
+			long long pos = (long long) is.tellg();
+			if (pos < 0 || !np::footer_ok(F, (size_t) pos)) {
+				st.violation(keybase + ":footer-walk", vf::strf("%s: after re-reading all %u blocks the reader is at %lld, not at an 8-byte footer ending the %zu byte file", what.c_str(), h.nblocks, pos, F.size()), cj);
+				return;
+			}
+		}
+	}
+	if (h.has_strings) {
+		uint32_t mx = 0;
+		for (auto& t : h.strings) mx = std::max<uint32_t>(mx, (uint32_t) t.size());
+		if (mx != h.maxstrlen)
+			st.violation(keybase + ":max-string-length", vf::strf("%s: header maxStringLen %u but the longest string has %u bytes", what.c_str(), h.maxstrlen, mx), cj);
+		if (!has_unknown) {
+			std::vector<std::string> sorted = h.strings;
+			std::sort(sorted.begin(), sorted.end());
+			if (std::adjacent_find(sorted.begin(), sorted.end()) != sorted.end())
+				st.violation(keybase + ":duplicate-string", what + ": string table holds a string twice", cj);
+		}
+		for (auto off : sv.stridx) {
+			if (off < h.hdr_end || off + 4 > F.size()) continue;
+			uint32_t idx;
+			memcpy(&idx, F.data() + off, 4);
+			st.add("string_indices_checked");
+			if (idx != NIF_NPOS && idx >= h.strings.size()) {
+				st.violation(keybase + ":string-index-out-of-range", vf::strf("%s: string index %u at offset %llu but the table holds %zu strings", what.c_str(), idx, (unsigned long long) off, h.strings.size()), cj);
+				break;
+			}
+		}
+	}
+}
+
+// every edit of the menu, applied to a fresh load of F, then saved raw and default
+static const char* C07_EDITS[] = {"none", "delete-block", "add-node", "add-shape", "delete-vertex", "rename", "add-extra-data", "set-texture", "convert", "clone-shape"};
+
+static void c07_file_checks(const std::string& F, const std::string& keybase, const std::string& what, const J& cj, Stats& st, bool with_edits) {
+	for (const char* edit : C07_EDITS) {
+		std::string e = edit;
+		if (!with_edits && e != "none") break;
+		size_t variants = 1;
+		for (size_t var = 0; var < variants; var++) {
+			for (int raw = 1; raw >= 0; raw--) {
+				if (vf::deadline_passed()) { st.capped("deadline inside C07 edits"); return; }
+				NifFile x;
+				if (s1::load(x, F) != 0) { st.add("file_not_accepted"); return; }
+				auto& hdr = x.GetHeader();
+				auto shapes = x.GetShapes();
+				bool applied = true;
+				if (e == "delete-block") {
+					variants = std::min<size_t>(hdr.GetNumBlocks(), 40);
+					uint32_t id = (uint32_t) var;
+					// keep the root; geometry data blocks are only deleted together with their shape (shapes
+					// cache a raw pointer to them -- deleting one alone is C06's subject, not a header matter)
+					if (hdr.GetNumBlocks() <= 1 || id == 0 || hdr.GetBlock<NiGeometryData>(id)) applied = false;
+					else hdr.DeleteBlock(id);
+				}
+				else if (e == "add-node") x.AddNode("VerifNode", MatTransform());
+				else if (e == "add-shape") {
+					std::vector<Vector3> v = {{0, 0, 0}, {1, 0, 0}, {0, 1, 0}, {0, 0, 1}};
+					std::vector<Triangle> t = {{0, 1, 2}, {0, 2, 3}};
+					std::vector<Vector2> uv = {{0, 0}, {1, 0}, {0, 1}, {1, 1}};
+					if (!x.CreateShapeFromData("VerifShape", &v, &t, &uv)) applied = false;
+				}
+				else if (e == "delete-vertex") {
+					variants = std::max<size_t>(1, std::min<size_t>(shapes.size(), 6));
+					if (var < shapes.size() && shapes[var]->GetNumVertices() > 1) x.DeleteVertsForShape(shapes[var], {0});
+					else applied = false;
+				}
+				else if (e == "rename") {
+					if (!shapes.empty()) NifFile::RenameShape(shapes[0], "A much longer shape name than before, to move maxStringLen");
+					else if (auto r = x.GetRootNode()) r->name.get() = "renamed root with a long name";
+					else applied = false;
+				}
+				else if (e == "add-extra-data") {
+					auto r = x.GetRootNode();
+					if (r) { auto ed = std::make_unique<NiStringExtraData>(); ed->name.get() = "VerifED"; ed->stringData.get() = "payload"; x.AssignExtraData(r, std::move(ed)); }
+					else applied = false;
+				}
+				else if (e == "set-texture") {
+					if (!shapes.empty()) { std::string tex = "textures\\verif\\x_d.dds"; x.SetTextureSlot(shapes[0], tex, 0); }
+					else applied = false;
+				}
+				else if (e == "convert") {
+					auto& v = hdr.GetVersion();
+					OptOptions oo;
+					if (v.IsSK()) oo.targetVersion = NiVersion::getSSE();
+					else if (v.IsSSE()) oo.targetVersion = NiVersion::getSK();
+					else applied = false;
+					if (applied) x.OptimizeFor(oo);
+				}
+				else if (e == "clone-shape") {
+					if (!shapes.empty()) x.CloneShape(shapes[0], "VerifClone");
+					else applied = false;
+				}
+				if (!applied) break;
+				vf::set_inflight(J(cj).set("edit", e).set("variant", (long long) var).set("raw", raw == 1).dump());
+				st.add(std::string("edit_") + edit);
+				canon::Saved sv = canon::save(x, raw == 1);
+				J cje = cj;
+				cje.set("edit", e).set("variant", (long long) var).set("raw", raw == 1);
+				c07_check_saved(sv, x.HasUnknown(), keybase + ":" + (e == "none" ? std::string("roundtrip") : "after-" + e), vf::strf("%s, edit %s#%zu, %s save", what.c_str(), edit, var, raw ? "raw" : "default"), cje, st);
+				g_unit_file_outcomes.insert(vf::fnv(sv.bytes));
+			}
+		}
+	}
+}
+
+static void oracle_c07_file(const std::string& type, const VerCfg& vc, const Script& s, Stats& st) {
+	s1::Built b = s1::build_s1(type, vc, s, g_wide);
+	if (!b.ok) { st.add("file_not_built"); return; }
+	st.add("files_checked");
+	c07_file_checks(b.file, type + ":" + game_of(vc), vf::strf("%s (%s)", type.c_str(), vc.name), case_json(type, vc, s), st, s.empty());
+}
+
 // ---------- sample files (corpus R) ----------
 static std::vector<std::string> g_rfiles;
 
@@ -359,6 +533,10 @@ static void run_rfile(const std::string& rel, Stats& st) {
 	if (A.prop == "C01") c01_file_checks(F, keybase, rel, cj, st);
 	else if (A.prop == "C02") {
 		c02_file_checks(F0, keybase, rel, cj, st);
+	}
+	else if (A.prop == "C07") {
+		st.add("files_checked");
+		c07_file_checks(F0, keybase, rel, cj, st, true);
 	}
 }
 
@@ -472,6 +650,10 @@ int main(int argc, char** argv) {
 	g_wide = A.geti("wide", 1) != 0;
 	g_file_level = (int) A.geti("filelevel", thorough ? 2 : 1);
 	g_file_dev = (int) A.geti("filedev", 1);
+	if (A.prop == "C07") {
+		g_bound = (int) A.geti("bound", thorough ? 2 : 1);
+		g_file_dev = (int) A.geti("filedev", thorough ? 2 : 1);
+	}
 	if (A.prop == "C02") {
 		if (thorough) g_hists = all_histories(3);
 		else g_hists = {"RRR", "DDD", "RD", "DR", "QRQ"};
@@ -506,7 +688,7 @@ int main(int argc, char** argv) {
 	struct Unit { size_t t, v; long rfile; };
 	std::vector<Unit> units;
 	// sample files first (the big ones take longest)
-	if ((A.prop == "C01" || A.prop == "C02") && !A.has("type") && A.geti("rfiles", 1)) {
+	if ((A.prop == "C01" || A.prop == "C02" || A.prop == "C07") && !A.has("type") && A.geti("rfiles", 1)) {
 		list_rfiles();
 		for (size_t i = 0; i < g_rfiles.size(); i++) units.push_back({0, 0, (long) i});
 	}
@@ -549,6 +731,7 @@ int main(int argc, char** argv) {
 		if (units[u].rfile >= 0) {
 			// a sample file is a valid input: a fault while loading / saving it is a defect, not a rejection
 			J cj = J::obj().set("file", g_rfiles[(size_t) units[u].rfile]);
+			try { cj = J::parse(inflight); } catch (std::exception&) {}
 			parent.violation("file:" + g_rfiles[(size_t) units[u].rfile] + ":crash:" + ci.key(), "worker died (" + ci.cls + " in " + ci.frame + ") on a sample file", cj);
 			return "";
 		}
